@@ -31,6 +31,13 @@ Proof.
        m_code m_mid m_token m_opts m_payload]. reflexivity.
 Qed.
 
+Lemma ed_of_pdu_set_opts' q os buf data mo :
+  buf = token_area (m_token (p_msg q)) ++ opts_enc 0 os ++ payload_area (m_payload (p_msg q)) ->
+  data = (match m_payload (p_msg q) with [] => 0 | _ => len buf - len (m_payload (p_msg q)) end) ->
+  mo = last_num os ->
+  ed_set_maxopt (ed_set_buf (ed_of_pdu q) buf data) mo = ed_of_pdu (set_opts q os).
+Proof. intros H1 H2 ->. apply ed_of_pdu_set_opts; assumption. Qed.
+
 Lemma ed_set_maxopt_same p : ed_set_maxopt p (eb_maxopt p) = p.
 Proof. destruct p; reflexivity. Qed.
 
@@ -210,4 +217,272 @@ Proof.
     rewrite <- !app_assoc. reflexivity.
   - rewrite ed_shift_data_of_pdu. destruct (m_payload (p_msg q)); [reflexivity|].
     rewrite Hbuf, !len_app. subst E. rewrite !opt_enc_len. unfold opt_encode_size. lia.
+Qed.
+
+(* ---- coap_add_option_internal, tail: encode after the last option ---- *)
+
+Lemma ed_b_append_refines q n v :
+  ed_mwf (p_msg q) -> last_num (m_opts (p_msg q)) <= n <= 65535 -> len v <= 65804 ->
+  ((n =? last_num (m_opts (p_msg q))) && negb (repeatable n) = false) ->
+  ed_b_append (ed_of_pdu q) n v =
+  Some (fst (add_opt_raw q n v), ed_of_pdu (snd (add_opt_raw q n v))).
+Proof.
+  intros W Hn Hv Hrep. pose proof W as [Htok Hok Hasc].
+  set (mx := last_num (m_opts (p_msg q))) in *.
+  pose proof (ed_ascending_lastn _ 0 Hasc) as Hmx0.
+  change (ed_lastn 0 (m_opts (p_msg q))) with mx in Hmx0.
+  assert (Hspec : add_opt_raw q n v =
+    if fits q (used (p_msg q) + opt_encode_size (n - mx) (len v))
+    then (true, set_opts q (m_opts (p_msg q) ++ [(n, v)])) else (false, q)).
+  { unfold add_opt_raw. fold mx. rewrite Hrep. replace (n <? mx) with false by lia.
+    rewrite ed_insert_opt_end; [reflexivity|].
+    pose proof (ed_all_le_last _ 0 Hasc) as Hl. eapply Forall_impl; [|exact Hl].
+    cbn. intros o Ho. change (ed_lastn 0 (m_opts (p_msg q))) with mx in Ho. lia. }
+  rewrite Hspec. clear Hspec.
+  unfold ed_b_append. rewrite ed_used_of_pdu, ed_fits_of_pdu, ed_maxopt_of_pdu. fold mx.
+  destruct (fits q (used (p_msg q) + opt_encode_size (n - mx) (len v))) eqn:Ef;
+    cbn [negb fst snd]; [|reflexivity].
+  set (sz := opt_encode_size (n - mx) (len v)).
+  set (E := opt_enc (n - mx) v).
+  assert (HE : len E = sz) by apply opt_enc_len.
+  assert (Hsz : 0 <= sz) by (rewrite <- HE; apply len_nonneg).
+  set (TA := token_area (m_token (p_msg q))).
+  set (OE := opts_enc 0 (m_opts (p_msg q))).
+  set (J := repeat ed_junk (Z.to_nat sz)).
+  assert (HJ : len J = sz) by (subst J; rewrite ed_len_repeat; lia).
+  assert (Hlen : len (eb_buf (ed_of_pdu q)) = used (p_msg q)) by apply ed_used_of_pdu.
+  assert (Hres : forall buf', buf' = (TA ++ OE) ++ E ++ payload_area (m_payload (p_msg q)) ->
+    ed_set_maxopt (ed_set_buf (ed_of_pdu q) buf' (ed_shift_data (ed_of_pdu q) sz)) n =
+    ed_of_pdu (set_opts q (m_opts (p_msg q) ++ [(n, v)]))).
+  { intros buf' ->.
+    rewrite <- (ed_of_pdu_set_opts q (m_opts (p_msg q) ++ [(n, v)])
+                 ((TA ++ OE) ++ E ++ payload_area (m_payload (p_msg q)))
+                 (ed_shift_data (ed_of_pdu q) sz)).
+    - f_equal. change (n = ed_lastn 0 (m_opts (p_msg q) ++ [(n, v)])).
+      rewrite ed_lastn_app, ed_lastn_cons, ed_lastn_nil. reflexivity.
+    - rewrite ed_opts_enc_app. cbn [opts_enc]. change (ed_lastn 0 (m_opts (p_msg q))) with mx.
+      subst TA OE E. rewrite <- !app_assoc. cbn [app]. reflexivity.
+    - rewrite ed_shift_data_of_pdu. destruct (m_payload (p_msg q)) eqn:Ep; [reflexivity|].
+      rewrite ed_buf_of_pdu, Ep. fold TA OE. rewrite !len_app. lia. }
+  unfold ed_grow. fold J.
+  destruct (m_payload (p_msg q)) as [|x xs] eqn:Ep.
+  - (* no payload: encode at used_size *)
+    assert (Hd : eb_data (ed_of_pdu q) = 0).
+    { cbn [ed_of_pdu ed_of_msg eb_data]. rewrite Ep. reflexivity. }
+    rewrite Hd. cbn [Z.eqb]. cbv beta iota zeta.
+    assert (Hb : eb_buf (ed_of_pdu q) = TA ++ OE).
+    { rewrite ed_buf_of_pdu, Ep. cbn [payload_area]. rewrite app_nil_r. reflexivity. }
+    rewrite Hb. rewrite Hb in Hlen.
+    destruct (ed_bwrite_end (TA ++ OE) J E ltac:(lia)) as (Wr & HW & HT).
+    rewrite <- Hlen. rewrite HW. f_equal. f_equal.
+    replace (len (TA ++ OE) + sz) with (len (TA ++ OE) + len E) by lia. rewrite HT. apply Hres. cbn [payload_area]. rewrite <- !app_assoc, app_nil_r.
+    reflexivity.
+  - (* payload: move marker + payload up, encode where the marker was *)
+    set (PA := PAYLOAD_START :: x :: xs).
+    assert (Hb : eb_buf (ed_of_pdu q) = (TA ++ OE) ++ PA).
+    { rewrite ed_buf_of_pdu, Ep. cbn [payload_area]. rewrite <- app_assoc. reflexivity. }
+    assert (Hd : eb_data (ed_of_pdu q) = len (TA ++ OE) + 1).
+    { cbn [ed_of_pdu ed_of_msg eb_data]. rewrite Ep. fold TA.
+      change (content_area (p_msg q)) with (OE ++ payload_area (m_payload (p_msg q))).
+      rewrite Ep. cbn [payload_area]. rewrite !len_app. subst PA. rewrite len_cons. lia. }
+    pose proof (len_nonneg (TA ++ OE)) as Hp0.
+    rewrite Hd. replace (len (TA ++ OE) + 1 =? 0) with false by lia.
+    destruct (ed_gap (TA ++ OE) [] PA J E sz 0 eq_refl HE ltac:(lia)) as (M & Wr & HM & HW & HT).
+    cbn [app] in HM.
+    rewrite Hb. rewrite Hb in Hlen. rewrite len_app in Hlen.
+    replace (len (TA ++ OE) + 1 + sz - 1) with (len (TA ++ OE) + sz) by lia.
+    replace (len (TA ++ OE) + 1 - 1) with (len (TA ++ OE) + 0) by lia.
+    replace (used (p_msg q) - (len (TA ++ OE) + 1) + 1) with (len PA) by lia.
+    rewrite <- app_assoc. rewrite HM.
+    replace (len (TA ++ OE) + 0) with (len (TA ++ OE)) by lia.
+    rewrite HW. f_equal. f_equal.
+    replace (used (p_msg q) + sz) with (len (TA ++ OE) + sz + len PA) by lia.
+    rewrite HT. apply Hres. cbn [payload_area]. rewrite <- !app_assoc. reflexivity.
+Qed.
+
+(* ---- coap_add_option_internal / coap_insert_option ---- *)
+
+Lemma ed_b_add_plain_refines q n v :
+  ed_mwf (p_msg q) -> 0 <= n <= 65535 -> len v <= 65804 ->
+  ed_b_add_plain (ed_of_pdu q) n v =
+  Some (fst (add_opt_raw q n v), ed_of_pdu (snd (add_opt_raw q n v))).
+Proof.
+  intros W Hn Hv. unfold ed_b_add_plain. rewrite ed_maxopt_of_pdu.
+  destruct ((n =? last_num (m_opts (p_msg q))) && negb (repeatable n)) eqn:Er.
+  - unfold add_opt_raw. rewrite Er. reflexivity.
+  - destruct (n <? last_num (m_opts (p_msg q))) eqn:El.
+    + apply ed_b_inplace_refines; try assumption; lia.
+    + apply ed_b_append_refines; try assumption; lia.
+Qed.
+
+Lemma ed_b_has_of_pdu q n :
+  ed_mwf (p_msg q) -> ed_b_has (ed_of_pdu q) n = Some (has_opt n (m_opts (p_msg q))).
+Proof.
+  intros W. unfold ed_b_has.
+  destruct (ed_split_first (fun k => k =? n) (m_opts (p_msg q)))
+    as [Hall|(l1 & k & w & l2 & Ho & Hsf & Hst)].
+  - destruct (ed_search_none q (fun k => k =? n) W Hall) as [pr ->].
+    apply ed_has_opt_false in Hall. rewrite Hall. reflexivity.
+  - rewrite (ed_search_found q (fun k => k =? n) l1 k w l2 W Ho Hsf Hst).
+    f_equal. symmetry. unfold has_opt. rewrite Ho, existsb_app. cbn [existsb fst].
+    rewrite Hst. rewrite orb_true_r. reflexivity.
+Qed.
+
+Lemma ed_add_opt_raw_last q n v :
+  ed_mwf (p_msg q) -> 0 <= n ->
+  last_num (m_opts (p_msg (snd (add_opt_raw q n v)))) = last_num (m_opts (p_msg q)) \/
+  last_num (m_opts (p_msg (snd (add_opt_raw q n v)))) = n /\ last_num (m_opts (p_msg q)) <= n.
+Proof.
+  intros [_ _ Ha] Hn. unfold add_opt_raw. repeat case_if; cbn [snd]; try (left; reflexivity);
+    cbn [set_opts p_msg m_opts]; rewrite ed_last_num_insert_max by assumption; lia.
+Qed.
+
+Lemma ed_b_add_internal_refines q n v :
+  ed_mwf (p_msg q) -> 0 <= n <= 65535 -> len v <= 65804 ->
+  ed_b_add_internal (ed_of_pdu q) n v =
+  Some (fst (ed_add_internal q n v), ed_of_pdu (snd (ed_add_internal q n v))).
+Proof.
+  intros W Hn Hv. unfold ed_b_add_internal, ed_add_internal. rewrite ed_maxopt_of_pdu.
+  set (mx := last_num (m_opts (p_msg q))).
+  destruct ((n =? mx) && negb (repeatable n)) eqn:Er; [reflexivity|].
+  (* the RFC 8768 step *)
+  assert (Hhop :
+    (if is_request (eb_code (ed_of_pdu q)) && ((n =? 35) || (n =? 39))
+     then has <- ed_b_has (ed_of_pdu q) 16 ;;
+          (if has then Some (ed_of_pdu q)
+           else r <- (if mx <=? 16 then ed_b_add_plain (ed_of_pdu q) 16 [16]
+                      else ed_b_inplace (ed_of_pdu q) 16 [16]) ;; Some (snd r))
+     else Some (ed_of_pdu q)) = Some (ed_of_pdu (ed_hop_step q n))).
+  { unfold ed_hop_step, ed_hop_trigger. change (eb_code (ed_of_pdu q)) with (m_code (p_msg q)).
+    destruct (is_request (m_code (p_msg q)) && ((n =? 35) || (n =? 39))) eqn:Et;
+      cbn [andb]; [|reflexivity].
+    rewrite ed_b_has_of_pdu by assumption.
+    destruct (has_opt 16 (m_opts (p_msg q))); cbn [negb]; [reflexivity|].
+    assert (H16 : len [16] <= 65804) by (unfold len; cbn; lia).
+    destruct (mx <=? 16) eqn:E16; subst mx.
+    - rewrite ed_b_add_plain_refines by (try assumption; lia). reflexivity.
+    - rewrite ed_b_inplace_refines by (try assumption; lia). reflexivity. }
+  rewrite Hhop. clear Hhop.
+  pose proof (ed_mwf_hop_step q n W) as W1.
+  set (q1 := ed_hop_step q n) in *. rewrite ed_maxopt_of_pdu.
+  (* the repeat check is not hit again after the step *)
+  assert (Hr1 : (n =? last_num (m_opts (p_msg q1))) && negb (repeatable n) = false).
+  { subst q1. unfold ed_hop_step, ed_hop_trigger.
+    destruct (is_request (m_code (p_msg q)) && ((n =? 35) || (n =? 39)) &&
+              negb (has_opt 16 (m_opts (p_msg q)))) eqn:Et; [|exact Er].
+    destruct (ed_add_opt_raw_last q 16 [16] W ltac:(lia)) as [->|[-> _]]; [exact Er|].
+    assert (n = 35 \/ n = 39) by lia. replace (n =? 16) with false by lia. reflexivity. }
+  destruct (n <? last_num (m_opts (p_msg q1))) eqn:El.
+  - apply ed_b_inplace_refines; try assumption; lia.
+  - apply ed_b_append_refines; try assumption; lia.
+Qed.
+
+Lemma ed_b_insert_refines q n v :
+  ed_mwf (p_msg q) -> 0 <= n <= 65535 -> len v <= 65804 ->
+  ed_b_insert (ed_of_pdu q) n v =
+  Some (fst (ed_insert q n v), ed_of_pdu (snd (ed_insert q n v))).
+Proof.
+  intros W Hn Hv. unfold ed_b_insert, ed_insert. rewrite ed_maxopt_of_pdu.
+  destruct (n <? last_num (m_opts (p_msg q))) eqn:El.
+  - replace (last_num (m_opts (p_msg q)) <=? n) with false by lia.
+    apply ed_b_inplace_refines; try assumption; lia.
+  - replace (last_num (m_opts (p_msg q)) <=? n) with true by lia.
+    apply ed_b_add_internal_refines; assumption.
+Qed.
+
+(* ---- coap_update_option ---- *)
+
+Lemma ed_bwrite_front (X Y E : bytes) :
+  len E = len X -> ed_bwrite (X ++ Y) 0 E = Some (E ++ Y).
+Proof.
+  intros H. pose proof (len_nonneg E). pose proof (len_nonneg Y).
+  unfold ed_bwrite. rewrite len_app.
+  replace ((0 <=? 0) && (0 + len E <=? len X + len Y)) with true by lia.
+  rewrite ed_take_0. cbn [app]. replace (0 + len E) with (len X) by lia.
+  rewrite drop_app_exact. reflexivity.
+Qed.
+
+Lemma ed_last_num_replace l1 n (w v : bytes) l2 :
+  last_num (l1 ++ (n, v) :: l2) = last_num (l1 ++ (n, w) :: l2).
+Proof.
+  change (ed_lastn 0 (l1 ++ (n, v) :: l2) = ed_lastn 0 (l1 ++ (n, w) :: l2)).
+  rewrite !ed_lastn_app, !ed_lastn_cons. reflexivity.
+Qed.
+
+Lemma ed_b_update_refines q n v :
+  ed_mwf (p_msg q) -> 0 <= n <= 65535 -> len v <= 65804 ->
+  ed_b_update (ed_of_pdu q) n v =
+  Some (fst (ed_update q n v), ed_of_pdu (snd (ed_update q n v))).
+Proof.
+  intros W Hn Hv. pose proof W as [Htok Hok Hasc]. unfold ed_b_update, ed_update.
+  destruct (ed_split_first (fun k => k =? n) (m_opts (p_msg q)))
+    as [Hall|(l1 & k & w & l2 & Ho & Hsf & Hst)].
+  { destruct (ed_search_none q (fun k => k =? n) W Hall) as [pr ->].
+    rewrite ed_find_none by assumption. apply ed_b_insert_refines; assumption. }
+  assert (k = n) by lia. subst k.
+  rewrite (ed_search_found q (fun k => k =? n) l1 n w l2 W Ho Hsf Hst).
+  cbn [eh_suf eh_pos].
+  assert (Hfind : ed_find n (m_opts (p_msg q)) = Some w)
+    by (rewrite Ho; apply ed_find_split; assumption).
+  rewrite Hfind.
+  assert (Hasc' := Hasc). rewrite Ho in Hasc'. apply ed_ascending_app in Hasc'.
+  destruct Hasc' as [Ha1 Ha2]. cbn [ascending fst] in Ha2. destruct Ha2 as [Hpk Ha3].
+  assert (Hok' := Hok). rewrite Ho in Hok'. apply ed_forall_app_inv in Hok'.
+  destruct Hok' as (Hok1 & [Hk Hw] & Hok2). cbn [fst snd] in Hk, Hw.
+  pose proof (ed_ascending_lastn l1 0 Ha1) as Hp0.
+  set (p1 := ed_lastn 0 l1) in *. set (d := n - p1).
+  set (PA := payload_area (m_payload (p_msg q))).
+  set (R := opts_enc n l2 ++ PA).
+  rewrite opt_parse_enc by lia.
+  rewrite len_app. replace (len (opt_enc d w) + len R - len R) with (len (opt_enc d w)) by lia.
+  rewrite opt_enc_len.
+  set (old := opt_encode_size d (len w)). set (new := opt_encode_size d (len v)).
+  assert (Hgrow : ed_vsize v - ed_vsize w = new - old).
+  { unfold ed_vsize, new, old, opt_encode_size. lia. }
+  rewrite Hgrow. rewrite ed_used_of_pdu, ed_fits_of_pdu.
+  replace (used (p_msg q) + new - old) with (used (p_msg q) + (new - old)) by lia.
+  destruct ((new - old <=? 0) || fits q (used (p_msg q) + (new - old))) eqn:Ec.
+  2:{ replace ((old <? new) && negb (fits q (used (p_msg q) + (new - old)))) with true
+        by (destruct (fits q (used (p_msg q) + (new - old))); lia). reflexivity. }
+  replace ((old <? new) && negb (fits q (used (p_msg q) + (new - old)))) with false
+    by (destruct (fits q (used (p_msg q) + (new - old))); lia).
+  cbn [fst snd].
+  set (E := opt_enc d v). set (X := opt_enc d w).
+  assert (HE : len E = new) by apply opt_enc_len.
+  assert (HX : len X = old) by apply opt_enc_len.
+  pose proof (len_nonneg E) as HE0. pose proof (len_nonneg X) as HX0. pose proof (len_nonneg R) as HR0.
+  set (TA := token_area (m_token (p_msg q))).
+  assert (Hbuf : eb_buf (ed_of_pdu q) = (TA ++ opts_enc 0 l1) ++ X ++ R).
+  { rewrite ed_buf_of_pdu, Ho, ed_opts_enc_app. cbn [opts_enc]. fold p1 d TA PA. subst R X.
+    rewrite <- !app_assoc. reflexivity. }
+  assert (Hlen : len (eb_buf (ed_of_pdu q)) = used (p_msg q)) by apply ed_used_of_pdu.
+  assert (Hpos : take (len TA + len (opts_enc 0 l1)) (eb_buf (ed_of_pdu q)) = TA ++ opts_enc 0 l1).
+  { rewrite Hbuf, <- len_app. apply take_app_exact. }
+  rewrite Hpos.
+  assert (Hres : forall buf', buf' = (TA ++ opts_enc 0 l1) ++ E ++ R ->
+    ed_set_buf (ed_of_pdu q) buf' (ed_shift_data (ed_of_pdu q) (new - old)) =
+    ed_of_pdu (set_opts q (ed_replace_first n v (m_opts (p_msg q))))).
+  { intros buf' ->. rewrite Ho, ed_replace_first_split by assumption.
+    change (ed_set_buf (ed_of_pdu q) ((TA ++ opts_enc 0 l1) ++ E ++ R)
+              (ed_shift_data (ed_of_pdu q) (new - old)))
+      with (ed_set_maxopt (ed_set_buf (ed_of_pdu q) ((TA ++ opts_enc 0 l1) ++ E ++ R)
+              (ed_shift_data (ed_of_pdu q) (new - old))) (eb_maxopt (ed_of_pdu q))).
+    apply ed_of_pdu_set_opts'.
+    3:{ rewrite (ed_last_num_replace l1 n w v l2), <- Ho. reflexivity. }
+    - rewrite ed_opts_enc_app. cbn [opts_enc]. fold p1 d TA PA. subst E R.
+      rewrite <- !app_assoc. reflexivity.
+    - rewrite ed_shift_data_of_pdu. destruct (m_payload (p_msg q)); [reflexivity|].
+      rewrite Hbuf, !len_app. lia. }
+  replace (used (p_msg q) + (new - old) - (len TA + len (opts_enc 0 l1)))
+    with (new + len R) by (rewrite <- Hlen, Hbuf, !len_app; lia).
+  destruct (new =? old) eqn:Eno.
+  - assert (new = old) by lia. rewrite ed_grow_neg by lia.
+    fold X. rewrite ed_bwrite_front by lia. f_equal. f_equal.
+    rewrite ed_take_all by (rewrite len_app; lia). apply Hres. reflexivity.
+  - unfold ed_grow. set (J := repeat ed_junk (Z.to_nat (new - old))).
+    assert (HJ : len J = Z.max 0 (new - old)) by (subst J; rewrite ed_len_repeat; lia).
+    destruct (ed_gap0 X R J E new old HX HE ltac:(lia)) as (M & Wr & HM & HW & HT).
+    fold X. rewrite <- app_assoc.
+    replace (old + len R - old) with (len R) by lia.
+    rewrite HM, HW. f_equal. f_equal. rewrite HT. apply Hres. reflexivity.
 Qed.
